@@ -2,7 +2,7 @@
    Theorems about the scope machinery and the loop-range function of the visitor model; the
    model is tied to /repo by the correspondence run of ./check C08. *)
 From Coq Require Import ZArith List Bool String.
-From Verif Require Import BGate PyVal Ast State Unroll ResolveProofs ScopeProofs ControlProofs StackProofs DefProofs.
+From Verif Require Import BGate PyVal Ast State Unroll ResolveProofs ScopeProofs ControlProofs StackProofs DefProofs Depth DepthModel FixProofs LoopProofs.
 Import ListNotations.
 Open Scope Z_scope.
 
@@ -190,3 +190,63 @@ Proof.
   intros H. destruct (case_scan_hit call_rec tv vs [] false s true s1 H eq_refl) as [X|X]; [discriminate|exact X].
 Qed.
 Print Assumptions C08_switch_case_hit_means_equal_value.
+
+(* WHOLE PROGRAMS WITH LOOPS (Lang/LoopProofs.v).  `expand env0 p = Some q` (a decidable, computable judgement) holds when the
+   top level of p consists of includes, register declarations, well-formed flat operations (Props/C03.v) and loops
+       for int i in [a:b] { gate / gphase / measurement / reset / barrier ... }
+   with literal 32-bit bounds, at most 100000 iterations, whose operations index their registers by literals or by the loop
+   variable and are well formed at EVERY value a, a+1, ..., b; q is then the program with every such loop replaced by its
+   body instantiated at a, then at a+1, ..., then at b.  For every such program -- any number of loops, iterations and
+   operations -- unroll() emits exactly q ("loops run their body once per value, in order, with the variable bound to the
+   value"), q is a well-formed flat program (so it is accepted again and unrolling it again changes nothing, Props/C03.v),
+   the qubit / bit counts are q's register sizes and the depth counters the recurrence over q's operations. *)
+Theorem C08_loops_unroll_to_their_instances fuel p q :
+  expand env0 p = Some q -> (ldepth p + 1 < fuel)%nat ->
+  exists o, run_visit false false [] fuel p = Ok o /\ o_stmts o = q /\ wf_flat env0 q = true /\
+            num_qubits (o_state o) = total_qubits q /\ num_clbits (o_state o) = total_clbits q /\
+            forall r, dof (o_state o) r = depth_after rsrc_eqb (evs_of q) r.
+Proof. exact (loops_unroll_to_their_instances fuel p q). Qed.
+Print Assumptions C08_loops_unroll_to_their_instances.
+
+(* ... with the fuel unroll() uses *)
+Corollary C08_unroll_of_a_program_with_loops p q o :
+  expand env0 p = Some q -> (ldepth p + 1 < default_fuel)%nat -> unroll_v false [] p = Ok o -> o_stmts o = q.
+Proof.
+  intros Hx Hf Hu. destruct (loops_unroll_to_their_instances default_fuel p q Hx Hf) as (o' & E & Ho & _).
+  unfold unroll_v in Hu. rewrite E in Hu. injection Hu as <-. exact Ho.
+Qed.
+Print Assumptions C08_unroll_of_a_program_with_loops.
+
+(* one iteration's worth: in a loop body, an operand indexed by the loop variable names the bit the variable's value names *)
+Theorem C08_operand_indexed_by_the_loop_variable call_rec env s (is_q : bool) x v r n :
+  Regs env s -> InLoop x v s -> sget r (if is_q then e_q env else e_c env) = Some n -> 0 <= v < n ->
+  resolve_one call_rec (QIdx r [IdxList [IExpr (EId x)]]) (if is_q then qreg_sizes s else creg_sizes s) is_q s = Ok ([(r, v)], s).
+Proof. exact (resolve_loop_var call_rec env s is_q x v r n). Qed.
+Print Assumptions C08_operand_indexed_by_the_loop_variable.
+
+(* non-vacuity: two loops around flat operations; the judgement computes the 12-statement flat program, which is what the
+   model's unroll emits; an index that leaves the register in the last iteration, a repeated operand at one value and a
+   loop variable named like a constant are outside the judgement *)
+Example C08_loops_example :
+  let qi := QIdx "q" [IdxList [IExpr (EId "i")]] in
+  let ci := QIdx "c" [IdxList [IExpr (EId "i")]] in
+  let q k := QIdx "q" [IdxList [IExpr (ELit (VInt k))]] in
+  let c k := QIdx "c" [IdxList [IExpr (ELit (VInt k))]] in
+  let rng a b := FRange (Some (ELit (VInt a))) (Some (ELit (VInt b))) None in
+  let decls := [SInclude "stdgates.inc"; SQubitDecl "q" (Some (ELit (VInt 4))); SClassicalDecl (TBit (Some (ELit (VInt 3)))) "c" None] in
+  let p := decls ++ [SGate [] "h" [] [q 3];
+                     SFor (TInt None) "i" (rng 0 2) [SGate [] "cx" [] [q 3; qi]; SGate [] "rx" [ELit (VInt 2)] [qi]];
+                     SBarrier [q 0];
+                     SFor (TInt None) "i" (rng 1 2) [SMeasure qi (Some ci); SReset qi]] in
+  expand env0 p = Some (decls ++ [SGate [] "h" [] [q 3];
+                                  SGate [] "cx" [] [q 3; q 0]; SGate [] "rx" [ELit (VInt 2)] [q 0];
+                                  SGate [] "cx" [] [q 3; q 1]; SGate [] "rx" [ELit (VInt 2)] [q 1];
+                                  SGate [] "cx" [] [q 3; q 2]; SGate [] "rx" [ELit (VInt 2)] [q 2];
+                                  SBarrier [q 0];
+                                  SMeasure (q 1) (Some (c 1)); SReset (q 1); SMeasure (q 2) (Some (c 2)); SReset (q 2)]) /\
+  match unroll_v false [] p, expand env0 p with Ok o, Some e => list_eqb stmt_eqb (o_stmts o) e | _, _ => false end = true /\
+  expand env0 (decls ++ [SFor (TInt None) "i" (rng 0 4) [SGate [] "h" [] [qi]]]) = None /\
+  expand env0 (decls ++ [SFor (TInt None) "i" (rng 0 3) [SGate [] "cx" [] [q 3; qi]]]) = None /\
+  expand env0 (decls ++ [SFor (TInt None) "pi" (rng 0 1) [SGate [] "h" [] [q 0]]]) = None /\
+  expand env0 (decls ++ [SFor (TInt None) "i" (rng 2 1) [SGate [] "h" [] [q 9]]]) = Some decls.
+Proof. vm_compute. repeat split; reflexivity. Qed.
